@@ -71,6 +71,12 @@ CHECKS["C12"] = dict(
    note="Trusted: model/csv.go reference parser, strconv-based type inference. Zero-byte reads without error and malformed documents are outside the property.",
    design="5/C12")
 
+CHECKS["C13"] = dict(
+   technique="bounded-exhaustive enumeration of frames x writer options x reader options; round-trip oracle plus independent reference reader of the written bytes",
+   text="All cell sequences of length <= 3 over per-type alphabets chosen for the writer/reader edge cases (quotes, delimiters, line feeds, blanks, invalid UTF-8, numeric-looking strings; +-0, subnormal, max, +-Inf, NaN; integer extremes; enums with a declared order) for one column of every type, and every type combination of three columns over reduced alphabets with every Columns permutation, each with Header on/off, EmptyNull on/off and five index shapes. The bytes written by ToCSV are parsed by the reference RFC 4180 parser (fields must denote the cells by value) and read back by ReadCSV with declared types; the result must equal the frame cell by cell (floats bit-identical).",
+   note="Trusted: reference parser; strings without CR only.",
+   design="5/C13")
+
 NOT_YET = {}
 BASELINE_CMD = "for m in $(cat /w/out/gomods.txt); do MF=$(cd /repo/$m && . /w/out/goenv.sh && gomodflag); (cd /repo/$m && go test $MF -json -vet=off -count=1 -timeout 25m ./...); done"
 
